@@ -218,3 +218,24 @@ Definition mem_reap (m : mempool) (n : Z) : list N :=
 (* Update: committed transactions leave the list AND the duplicate cache *)
 Definition mem_update (m : mempool) (ids : list N) : mempool :=
   mkMem (all_del (m_txs m) ids) (all_del (m_cache m) ids).
+
+(* gemmill/mempool under concurrent submitters.  ReceiveTx takes no lock: it looks the transaction up
+   in the cache (no effect), runs the filters and the log write, and only then records it with an
+   atomic test-and-set ([mem_receive] is exactly that second step).  Any number of goroutines run
+   these two steps in any interleaving, together with Update from the consensus routine. *)
+Inductive mev := MLookup (x : N) | MPush (x : N) | MUpdate (ids : list N).
+Definition mev_step (m : mempool) (e : mev) : mempool :=
+  match e with
+  | MLookup _ => m
+  | MPush x => fst (mem_receive m x)
+  | MUpdate ids => mem_update m ids
+  end.
+Definition mev_run (evs : list mev) (m : mempool) : mempool := fold_left mev_step evs m.
+Definition is_update (e : mev) : bool := match e with MUpdate _ => true | _ => false end.
+(* how many of the pushes of [x] in the schedule were accepted *)
+Fixpoint accepted (x : N) (evs : list mev) (m : mempool) : nat :=
+  match evs with
+  | [] => O
+  | e :: t =>
+    (match e with MPush y => if N.eqb y x && snd (mem_receive m y) then 1 else 0 | _ => 0 end + accepted x t (mev_step m e))%nat
+  end.
